@@ -401,7 +401,7 @@ class ExcAnalysis:
             return []  # user-defined __getitem__ is analysed as a call
         if self.int_index_means_sequence:
             ti = type_of(ex, idx)
-            if (ti <= frozenset(["int", "bool"]) and "?" not in ti) or idx.op in ("param", "loopvar", "loopexit", "index"):
+            if (ti <= frozenset(["int", "bool"]) and "?" not in ti) or idx.op in ("param", "loopvar", "loopexit", "index") or (idx.op == "elem" and unsnap(idx.args[0]).op == "range"):
                 return [] if self._index_safe(ex, base, idx, e) else ["IndexError"]
         # unknown shape: a lookup that may fail either way
         if self._index_safe(ex, base, idx, e) and is_const(idx) and isinstance(cval(idx), int):
@@ -457,6 +457,9 @@ class ExcAnalysis:
                     # `if len(x) % k:` -- a non-zero remainder needs len(x) >= 1
                     u = unsnap(l)
                     if u.op == "bin" and u.args[0] == "Mod" and unsnap(u.args[1]).op == "len" and unsnap(unsnap(u.args[1]).args[0]) is x and is_const(u.args[2]) and isinstance(cval(u.args[2]), int) and cval(u.args[2]) > 0:
+                        lb = max(lb, 1)
+                    # `if len(x) & k:` -- 0 & k is 0, so a non-zero result needs len(x) >= 1
+                    if u.op == "bin" and u.args[0] == "BitAnd" and any(unsnap(w).op == "len" and unsnap(unsnap(w).args[0]) is x for w in u.args[1:]):
                         lb = max(lb, 1)
                 if rr is None:
                     continue
@@ -852,7 +855,36 @@ class ExcAnalysis:
         if not (A and is_const(A[0]) and isinstance(cval(A[0]), int)):
             return False
         w = cval(A[0])
-        return self._int_ub(ex, recv, e) < (1 << (8 * w))
+        if self._int_ub(ex, recv, e) < (1 << (8 * w)):
+            return True
+        # a counter of loop iterations / a length of an in-memory object written in 8 or more bytes: 2**64 iterations or items are not reachable
+        return w >= 8 and self._is_count(ex, recv)
+
+    def _is_count(self, ex, t: Term, depth=0) -> bool:
+        t = unsnap(t)
+        if depth > 4:
+            return False
+        if is_const(t):
+            return isinstance(cval(t), int) and not isinstance(cval(t), bool) and 0 <= cval(t) < (1 << 32)
+        if t.op in ("len", "index"):
+            return True
+        if t.op == "bin" and t.args[0] == "Add":
+            return self._is_count(ex, t.args[1], depth + 1) and self._is_count(ex, t.args[2], depth + 1)
+        if t.op in ("loopvar", "loopexit"):
+            lr = ex.loops.get(t.args[0])
+            if lr is None:
+                return False
+            init, nxt = lr.init.get(t.args[1]), lr.next.get(t.args[1])
+            if init is None or nxt is None or not self._is_count(ex, init, depth + 1):
+                return False
+            n = unsnap(nxt)
+            lv = mk("loopvar", t.args[0], t.args[1])
+            if n is lv:
+                return True
+            if n.op == "bin" and n.args[0] == "Add":
+                a, b = unsnap(n.args[1]), unsnap(n.args[2])
+                return (a is lv and is_const(b) and isinstance(cval(b), int) and 0 <= cval(b) <= 256) or (b is lv and is_const(a) and isinstance(cval(a), int) and 0 <= cval(a) <= 256)
+        return False
 
     def _int_ub(self, ex, t: Term, e: Event, depth=0):
         """upper bound of a non-negative integer term, or +inf"""
